@@ -25,7 +25,8 @@
 EXTENDS Naturals, Sequences, FiniteSets, TLC, Json, IOUtils
 
 CONSTANTS CheckC05, CheckC06, CheckC07,     \* which property's clauses are applied
-          KnownRaised                       \* error keys of recorded findings (C06)
+          KnownRaised,                      \* error keys of recorded findings (C06: a pass raises)
+          KnownSteps                        \* "pass|clause" of recorded findings (a clause fails after a pass)
 
 Batch == JsonDeserialize(IOEnv.TRACE_FILE)
 
@@ -50,8 +51,10 @@ Expected(k) == IF k = 1 THEN "build" ELSE CleanerMethods[k - 1]      \* name of 
 NSnaps == Len(CleanerMethods) + 1
 
 \* cur = index of the snapshot that holds the current tree (the last one with same = FALSE)
-VARIABLES tid, l, cur, rej
-tvars == <<tid, l, cur, rej>>
+\* dev = a recorded finding was met on this trace (its words may be gone: the end-of-trace table
+\*       clause, which aligns words by position with the first snapshot, no longer applies)
+VARIABLES tid, l, cur, rej, dev
+tvars == <<tid, l, cur, rej, dev>>
 
 Tr == Batch[tid]
 Range(s) == {s[i] : i \in 1..Len(s)}
@@ -103,7 +106,7 @@ TablesKept(f, t) == \A k \in 1..Len(t.words) :
                       (k <= Len(f.words) /\ InBigTable(f, f.words[k].node)) => InTable(t, t.words[k].node)
 
 -----------------------------------------------------------------------------
-TraceInit == /\ tid \in 1..Len(Batch) /\ l = 0 /\ cur = 1 /\ rej = ""
+TraceInit == /\ tid \in 1..Len(Batch) /\ l = 0 /\ cur = 1 /\ rej = "" /\ dev = FALSE
 
 S      == Tr.snaps[l + 1]
 Old    == Tr.snaps[cur]                        \* the tree before this pass (meaningless for l = 0)
@@ -131,9 +134,9 @@ Clauses == <<
   [name |-> "C05 row-home",      ok |-> C5End => RowHome(New)],
   [name |-> "C05 item-home",     ok |-> C5End => ItemHome(New)],
   [name |-> "C07 word-count",    ok |-> C7 => SameCount(Old, New)],
-  [name |-> "C07 word-order",    ok |-> C7 => SameOrder(Old, New)],
-  [name |-> "C07 word-place",    ok |-> C7 => SamePlace(Old, New)],
-  [name |-> "C07 tables-kept",   ok |-> (CheckC07 /\ Tr.lossless /\ IsLast) => TablesKept(Tr.snaps[1], New)] >>
+  [name |-> "C07 word-order",    ok |-> (C7 /\ SameCount(Old, New)) => SameOrder(Old, New)],
+  [name |-> "C07 word-place",    ok |-> (C7 /\ SameCount(Old, New) /\ SameOrder(Old, New)) => SamePlace(Old, New)],
+  [name |-> "C07 tables-kept",   ok |-> (CheckC07 /\ Tr.lossless /\ IsLast /\ ~dev) => TablesKept(Tr.snaps[1], New)] >>
 
 Least(F) == CHOOSE k \in F : \A j \in F : k <= j
 
@@ -146,13 +149,17 @@ Step ==
   /\ Live
   /\ LET cl == Clauses                                   \* evaluated once per step
          f  == {k \in 1..Len(cl) : ~cl[k].ok}
-         known == CheckC06 /\ S.status = "raised" /\ S.errkey \in KnownRaised /\ f = {2} IN
+         Tolerated(k) == IF k = 2 THEN S.status = "raised" /\ S.errkey \in KnownRaised
+                         ELSE (S.pass \o "|" \o cl[k].name) \in KnownSteps
+         known == f # {} /\ \A k \in f : Tolerated(k) IN
      \/ /\ f = {}
-        /\ Advance /\ rej' = rej
-     \/ /\ known
-        /\ PrintT("@@" \o ToJson([kind |-> "known", tid |-> tid, id |-> Tr.id, l |-> l + 1, pass |-> S.pass, errkey |-> S.errkey]))
-        /\ Advance /\ rej' = rej
+        /\ Advance /\ rej' = rej /\ dev' = dev
+     \/ /\ known                                      \* KnownDeviation: a recorded finding, the trace goes on
+        /\ PrintT("@@" \o ToJson([kind |-> "known", tid |-> tid, id |-> Tr.id, l |-> l + 1, pass |-> S.pass,
+                                  clause |-> cl[Least(f)].name, status |-> S.status, errkey |-> S.errkey]))
+        /\ Advance /\ rej' = rej /\ dev' = TRUE
      \/ /\ f # {} /\ ~known
+        /\ dev' = dev
         /\ rej' = cl[Least(f)].name
         /\ PrintT("@@" \o ToJson([kind |-> "reject", tid |-> tid, id |-> Tr.id, l |-> l + 1, pass |-> S.pass,
                                   clause |-> cl[Least(f)].name, status |-> S.status, errkey |-> S.errkey]))
